@@ -140,7 +140,7 @@ def stepLine (st : State × Nat) (l : String) : IO (State × Nat) := do
         let blk := showBlocks s J
         let r := s.jobRun j
         let last := match r.1.jobs[j]? with | some J' => showLast J'.last | none => "-"
-        IO.println s!"run {j} n={r.2.length} ents={showCsv r.2} blk={blk} w={r.1.w} last={last}"
+        IO.println s!"run {j} n={r.2.length} sel={r.2.length} ents={showCsv r.2} blk={blk} w={r.1.w} last={last}"
         return (r.1, nj)
     | none => bad
   | ["dump"] => IO.println (showDump s); return st
